@@ -7,7 +7,7 @@ from contracts import c10_codec
 def custom_native(ip, runner):
     from pyvc.driver import native_bounded
     return [native_bounded(runner, 'codec-roundtrips', 'mpint encodings equal RFC 4251 section 5 / SSH-1 encodings and decode back; KEXINIT and SSH-1 public-key messages round-trip field by field and re-encode to the same bytes',
-                           c10_codec.NATIVE_ROUNDTRIP, '~1900 integers of both signs (dense around 0 and +-2^k, k up to 8192, boundary word patterns, 300 random up to 600 bits); 30 KEXINITs with ten pairwise different name-lists; 3 SSH-1 messages',
+                           c10_codec.NATIVE_ROUNDTRIP, '~1900 integers of both signs (dense around 0 and +-2^k, k up to 8192, boundary word patterns, 300 random up to 600 bits); 30 KEXINITs with ten pairwise different name-lists; name-lists with empty names; packets of 1..20000 bytes through send_packet -> independent RFC 4253 reader -> read_packet over a byte pipe delivering 1 / 7 / 512 / 2048 / 4095-byte segments; SSH-1 packets with non-zero padding and good/bad CRC; 3 SSH-1 messages',
                            'WriteBuf._create_mpint'),
             native_bounded(runner, 'ssh1-crc32', 'table entry i == bitwise CRC of byte i (all 256); calc(v) == bitwise reflected CRC-32 (poly 0xEDB88320, init 0, no final xor)',
                            c10_codec.NATIVE_CRC, 'all 256 table entries; all 1-byte inputs, 1024 2-byte inputs, 200 random inputs up to 199 bytes',
